@@ -16,12 +16,12 @@ UNIT = dict(
                  "break_stream: the per-batch closure body (state construction, rows_already_seen update)",
                  "struct StrictBatchSizeStream + Stream::poll_next body"]},
     models=["arrow RecordBatch -> RecordBatchLite: the contiguous run (first row, row count) of an abstract input row sequence it holds, with a sticky `bad` mark if rows that are not consecutive were concatenated; slice() panics out of range like arrow",
-            "the inner SendableRecordBatchStream / Stream -> an iterator over <=3 batches (async fn/.await/ready!(poll_next) removed: the stream is always ready)",
+            "the inner SendableRecordBatchStream / Stream -> an iterator over <=3 batches; for StrictBatchSizeStream::poll_next it answers Poll::Pending nondeterministically (<=2 times), so every Pending schedule within the bound is covered; in BatchReaderChunker async fn/.await are removed (always ready)",
             "arrow::compute::concat_batches -> concatenation of two RecordBatchLite", "Vec/VecDeque -> vstd::cvec models (capacity 4)",
             "lance_core::Result / DataFusionError -> unit-like errors"],
     bounds={"input": "<=3 input batches of arbitrary lengths < 2^16 each (consecutive rows of one sequence)", "chunk/batch size": "any 1 <= size < 2^16",
             "steps": "chunk_stream: first two output chunks; strict: first three polls; break: all pieces of one batch from an arbitrary rows_seen state"},
-    outside=["spill.rs (files, channels)", "errors raised by the inner stream", "chunk_concat_stream (arrow concat kernel)"],
+    outside=["spill.rs (files, channels)", "errors raised by the inner stream", "chunk_concat_stream (arrow concat kernel)", "Pending schedules of chunk_stream (async fn state is kept by the compiler-generated future)"],
 )
 
 ENV = open(os.path.join(os.path.dirname(__file__), "env.rs")).read()
@@ -53,7 +53,9 @@ def build(repo, subs):
     st_impl = X.extract_item(src, r"^impl<S> Stream for StrictBatchSizeStream<S>")
     pn = X.extract_item(st_impl, r"^\s*fn poll_next\b")
     body = X.fn_body(pn)
-    body = subs.lit(body, "ready!(Pin::new(&mut self.inner).poll_next(cx))", "self.inner.next()", why="inner stream model is always ready")
+    body = subs.lit(body, "ready!(Pin::new(&mut self.inner).poll_next(cx))",
+                    "(match self.inner.poll_model() { Poll::Ready(x) => x, Poll::Pending => return Poll::Pending })",
+                    why="ready!(poll_next) spelled out over the inner stream model, which may answer Pending a bounded, nondeterministic number of times")
     body = subs.rx(body, r"arrow::compute::concat_batches\(&residual\.schema\(\), &\[residual, batch\]\)\s*\.map_err\(\|e\| DataFusionError::External\(Box::new\(e\)\)\)\?",
                    "crate::env::concat_batches(&residual.schema(), &[residual, batch])?", why="concat model; error boxing dropped")
     body = subs.lit(body, "Ok::<_, DataFusionError>", "Ok::<_, crate::env::DataFusionError>", why="error model path")
